@@ -25,7 +25,22 @@ CONTEXTS = {
     "labelled": ("void f(void){ L: %s; }", 1, lambda a: a.ext[0].body.block_items[0].stmt),
     "case_statement": ("void f(void){ switch (0) { case 1: %s; } }", 1,
                        lambda a: a.ext[0].body.block_items[0].stmt.block_items[0].stmts[0]),
+    # round 7: unusual host constructs (6.7.8 designators, 6.7.10, 6.8.6.4, 6.8.5.3, 6.5.3.4, 6.7.5, 6.7.5.2)
+    "designator": ("int a[] = { [%s] = 1 };", 3, lambda a: a.ext[0].init.exprs[0].name[0]),
+    "static_assert": ("_Static_assert(%s, \"m\");", 3, lambda a: a.ext[0].cond),
+    "return": ("int f(void){ return %s; }", 1, lambda a: a.ext[0].body.block_items[0].expr),
+    "for_step": ("void f(void){ for (;;%s) ; }", 1, lambda a: a.ext[0].body.block_items[0].next),
+    "sizeof_operand": ("int x = sizeof %s;", 15, lambda a: a.ext[0].init.expr),
+    "alignas": ("_Alignas(%s) int x;", 3, lambda a: a.ext[0].align[0].alignment),
+    "static_bound": ("void f(int n, int a[static %s]);", 2, lambda a: a.ext[0].type.args.params[1].type.dim),
+    "member_bound": ("struct S { int k; int a[%s]; };", 2, lambda a: a.ext[0].type.decls[1].type.dim),
+    "init_list_item": ("int a[] = { 0, %s, 2 };", 2, lambda a: a.ext[0].init.exprs[1]),
 }
+
+
+HOSTS = ["designator", "static_assert", "return", "for_step", "sizeof_operand", "alignas", "static_bound",
+         "member_bound", "init_list_item"]
+BASE = [c for c in CONTEXTS if c not in HOSTS]
 
 
 def cfg_text(maxops, modes, concrete, export=True, inv=True, binonly=False):
@@ -58,10 +73,13 @@ def check_one(case, ctxnames=None):
     from pycparser import c_parser
     out = []
     exp0 = strip(case["ast"])
-    runs = [(c, case["toks"], exp0) for c in (ctxnames or CONTEXTS)]
+    if ctxnames is None:   # the ten base contexts always, three of the nine host contexts per case (rotating)
+        k = sum(len(t) for t in case["toks"]) + len(case["toks"])
+        ctxnames = BASE + [HOSTS[(k + j * 3) % len(HOSTS)] for j in range(3)]
+    runs = [(c, case["toks"], exp0) for c in ctxnames]
     if case["toks"] and case["toks"][0] in ("v1", "(") and "v1" in case["toks"]:
         lt, la = literalise(case["toks"], exp0)
-        runs += [(c, lt, la) for c in (ctxnames or CONTEXTS) if c in ("labelled", "case_statement", "statement")]
+        runs += [(c, lt, la) for c in ctxnames if c in ("labelled", "case_statement", "statement")]
     for cname, toks, exp in runs:
         tmpl, lvl, get = CONTEXTS[cname]
         src = tmpl % render(toks, case["rl"], lvl)
@@ -100,15 +118,15 @@ def replay_population(ctx, exports, label):
         for case, fl in fails:
             for cname, sig, src in fl:
                 ctx.fail(sig, dict(kind="expr", case=case, ctx=cname, src=src))
-    ctx.count(n * len(CONTEXTS), nontrivial=n, traces=n * len(CONTEXTS))
+    ctx.count(n * (len(BASE) + 3), nontrivial=n, traces=n * (len(BASE) + 3))
     ctx.note("population_" + label, n)
 
 
 def run(tier):
     ctx = Ctx("C02", tier, "model_checking")
     ctx.cov["rule"] = ("every complete derivation of spec/CExpr.tla (C99 6.5 level table) within MaxOps "
-                       "operator nodes, each in 10 expression contexts; a case is one (tree, parenthesisation "
-                       "mode); distinct_nontrivial counts distinct exported trees")
+                       "operator nodes, each in 13 of %d expression contexts (10 always, 3 of 9 host constructs rotating); a case is one (tree, parenthesisation "
+                       "mode); distinct_nontrivial counts distinct exported trees") % len(CONTEXTS)
     rnd = random.Random(ctx.seed)
     plans = []
     if tier == "quick":
